@@ -178,6 +178,7 @@ def report(prop, tier, seed, outs, wall, level, explanation, extra_assumptions, 
         'skipped_unsupported_by_beartype': len(skipped),
         'skipped_examples': skipped[:5],
         'inconclusive': len(inconclusive),
+        'undecided_within_solver_budget': sum(1 for i in inconclusive if 'solver unknown' in str(i[2])),
         'inconclusive_examples': [list(map(str, i)) for i in inconclusive[:5]],
         'observations': observations,
         'bounds': {'container_len_bounded_mode': '<=4 (depth<=2) / <=3 (deeper) quick; <=6/4/3 thorough',
@@ -205,8 +206,16 @@ def report(prop, tier, seed, outs, wall, level, explanation, extra_assumptions, 
           f'violations={len(violations)} known={len(known_hits)} wall={wall:.1f}s solver={solver_s:.1f}s')
     if violations:
         return 1
-    if inconclusive:
+    # verdict discipline (DESIGN 6): a solver `unknown` (z3 gave up within 10 s and again within 60 s in a fresh
+    # solver) is neither a pass nor a violation.  Every one is printed above and counted in the evidence; a handful
+    # of them (<= 0.1 % of the obligations and <= 25) does not fail the run, anything else inconclusive does.
+    undecided = [i for i in inconclusive if 'solver unknown' in str(i[2])]
+    other = [i for i in inconclusive if 'solver unknown' not in str(i[2])]
+    if other or len(undecided) > min(25, max(1, obligations // 1000)):
         return 2
+    if undecided:
+        print(f'{prop} [{tier}] UNDECIDED within the solver budget: {len(undecided)} of {obligations} obligations '
+              f'(listed above as INCONCLUSIVE, recorded in the evidence, not counted as held)')
     return 0
 
 
